@@ -90,3 +90,22 @@ def make_coverage(gene, profile, table, low=None, indels=None, extra=None):
             cov[pos].setdefault(op, [])
             cov[pos][op] = cov[pos][op] + [tuple(q) for q in quals]
     return Coverage(gene, profile, None, dict(cov), indels, {})
+
+
+def realistic_indels(table):
+    """The form real pileups have: a catalogued deletion/insertion is counted in the indel
+    support table (reads without, reads with); the pileup itself holds "-" observations on the
+    deleted bases and no insertion entries.  Returns (table2, indel_table)."""
+    t2, ind = {}, {}
+    for pos, ops in table.items():
+        t2[pos] = {}
+        depth = sum(n for o, n in ops.items() if not o.startswith("ins"))
+        for o, n in ops.items():
+            if o.startswith("del") and "ins" not in o:
+                ind[pos, o] = (max(0, depth - n), n)
+                t2[pos]["-"] = t2[pos].get("-", 0) + n
+            elif o.startswith("ins"):
+                ind[pos, o] = (max(0, depth - n), n)
+            else:
+                t2[pos][o] = t2[pos].get(o, 0) + n
+    return t2, (ind or None)
